@@ -298,4 +298,134 @@ theorem DispL.answer_change {q : Party} {l : Nat} {msg : Msg} {q' : Party} {s : 
   | ldelDeliver => rw [(dob_same _ msg []).answer]; exact Or.inl rfl
   | _ => exact Or.inl rfl
 
+/-- counters and the r-ready messages they trigger -/
+theorem DispL.quorum_change {q : Party} {l : Nat} {msg : Msg} {q' : Party} {s : Sent} {o : Outcome}
+    (h : DispL H T q l msg q' s o) :
+    ((∀ k, cnt q'.eD k = cnt q.eD k) ∧ (∀ k, cnt q'.rD k = cnt q.rD k)) ∨
+    (q'.eD = (cntInc q.eD (msg.tag, msg.payload)).1 ∧ (∀ k, cnt q'.rD k = cnt q.rD k) ∧
+      (EchoQ q msg → s = sendAll q.n (mkMsg msg rReady msg.payload))) ∨
+    (q'.rD = (cntInc q.rD (msg.tag, msg.payload)).1 ∧ (∀ k, cnt q'.eD k = cnt q.eD k) ∧
+      (Amp q msg → s = sendAll q.n (mkMsg msg rReady msg.payload)) ∧
+      (cnt q.rD (msg.tag, msg.payload) + 1 = 2 * q.t + 1 →
+        aGet q'.dbar msg.tag = some msg.payload ∨
+        ∃ db, aGet q.dbar msg.tag = some db ∧ db ≠ msg.payload)) := by
+  have same : ((∀ k, cnt q.eD k = cnt q.eD k) ∧ (∀ k, cnt q.rD k = cnt q.rD k)) :=
+    ⟨fun _ => rfl, fun _ => rfl⟩
+  cases h with
+  | echoCount wf hact hnew hlen =>
+    refine Or.inr (Or.inl ⟨rfl, fun k => cnt_cntTouch _ _ _, fun hq => ?_⟩)
+    rw [if_pos hq]
+  | readyCount wf hact hnew hlen hno =>
+    refine Or.inr (Or.inr ⟨rfl, fun k => cnt_cntTouch _ _ _, fun hq => by rw [if_pos hq], fun hr => ?_⟩)
+    rcases hno with ha | hne | hdb
+    · exfalso; unfold Amp at ha; omega
+    · exact absurd hr hne
+    · exact Or.inr hdb
+  | readyReq wf hact hnew hlen hamp hr p3 hd hfoo =>
+    rcases hd with ⟨hn, rfl⟩ | ⟨hs, rfl⟩
+    · exact Or.inr (Or.inr ⟨rfl, fun k => cnt_cntTouch _ _ _, fun hq => absurd hq hamp,
+        fun _ => Or.inl (aGet_aSet_self _ _ _)⟩)
+    · exact Or.inr (Or.inr ⟨rfl, fun k => cnt_cntTouch _ _ _, fun hq => absurd hq hamp,
+        fun _ => Or.inl hs⟩)
+  | readyDeliver wf hact hnew hlen hamp hr p3 hd hfoo =>
+    rw [(dob_same p3 msg []).rD, (dob_same p3 msg []).eD, (dob_same p3 msg []).dbar]
+    rcases hd with ⟨hn, rfl⟩ | ⟨hs, rfl⟩
+    · exact Or.inr (Or.inr ⟨rfl, fun k => cnt_cntTouch _ _ _, fun hq => absurd hq hamp,
+        fun _ => Or.inl (aGet_aSet_self _ _ _)⟩)
+    · exact Or.inr (Or.inr ⟨rfl, fun k => cnt_cntTouch _ _ _, fun hq => absurd hq hamp,
+        fun _ => Or.inl hs⟩)
+  | answerDeliver =>
+    rw [(dob_same _ msg []).rD, (dob_same _ msg []).eD]; exact Or.inl same
+  | ldelDeliver =>
+    rw [(dob_same _ msg []).rD, (dob_same _ msg []).eD]; exact Or.inl same
+  | _ => exact Or.inl same
+
+theorem dob_buf_mono (p : Party) (m : Msg) : ∀ e ∈ p.deliverBuf, e ∈ (deliverOrBuffer p m []).party.deliverBuf := by
+  intro e he
+  rcases dob_cases p m with ⟨_, _, _, heq⟩ | ⟨_, _, _, _, heq⟩ | ⟨_, heq⟩ <;> rw [heq]
+  · exact he
+  · exact he
+  · exact List.mem_append_left _ he
+
+/-- what deliver-or-buffer achieves for the tag of its message -/
+theorem dob_prog (p : Party) (msg : Msg) :
+    (aGet p.mbar msg.tag = none ∧ (deliverOrBuffer p msg []).out = .threw) ∨
+    (∃ who m, (deliverOrBuffer p msg []).out = .delivered who m) ∨
+    msg ∈ (deliverOrBuffer p msg []).party.deliverBuf := by
+  rcases dob_cases p msg with ⟨_, _, hm, heq⟩ | ⟨m, _, _, hm, heq⟩ | ⟨_, heq⟩
+  · exact Or.inl ⟨hm, by rw [heq]⟩
+  · exact Or.inr (Or.inl ⟨_, m, by rw [heq]⟩)
+  · refine Or.inr (Or.inr ?_)
+    rw [heq]; exact List.mem_append_right _ (List.mem_singleton.2 rfl)
+
+/-- awaited tags and buffered messages: what one `dispatch` does to them -/
+theorem DispL.prog {q : Party} {l : Nat} {msg : Msg} {q' : Party} {s : Sent} {o : Outcome}
+    (h : DispL H T q l msg q' s o) :
+    (∀ τ, τ ∈ q.awaited → τ ≠ msg.tag → τ ∈ q'.awaited) ∧
+    (∀ e ∈ q.deliverBuf, e ∈ q'.deliverBuf) ∧
+    ((msg.tag ∈ q.awaited ∨ (aGet q.dbar msg.tag = none ∧ aGet q'.dbar msg.tag ≠ none)) →
+      msg.tag ∈ q'.awaited ∨ (∃ who m, o = .delivered who m) ∨ msg ∈ q'.deliverBuf ∨
+      aGet q'.dbar msg.tag = some 0) := by
+  have triv : q'.awaited = q.awaited → q'.deliverBuf = q.deliverBuf → q'.dbar = q.dbar →
+      (∀ τ, τ ∈ q.awaited → τ ≠ msg.tag → τ ∈ q'.awaited) ∧
+      (∀ e ∈ q.deliverBuf, e ∈ q'.deliverBuf) ∧
+      ((msg.tag ∈ q.awaited ∨ (aGet q.dbar msg.tag = none ∧ aGet q'.dbar msg.tag ≠ none)) →
+        msg.tag ∈ q'.awaited ∨ (∃ who m, o = .delivered who m) ∨ msg ∈ q'.deliverBuf ∨
+        aGet q'.dbar msg.tag = some 0) := by
+    intro h1 h2 h3
+    rw [h1, h2, h3]
+    refine ⟨fun τ h _ => h, fun e h => h, ?_⟩
+    rintro (h | ⟨h, h'⟩)
+    · exact Or.inl h
+    · exact absurd h h'
+  cases h with
+  | readyReq wf hact hnew hlen hamp hr p3 hd hfoo =>
+    have haw : ∀ τ, τ ∈ q.awaited → τ ∈ (if q.awaited.contains msg.tag then q.awaited
+        else msg.tag :: q.awaited) := by
+      intro τ h; split_ifs
+      · exact h
+      · exact List.mem_cons_of_mem _ h
+    have hin : msg.tag ∈ (if q.awaited.contains msg.tag then q.awaited
+        else msg.tag :: q.awaited) := by
+      split_ifs with hc
+      · simpa using hc
+      · exact List.mem_cons_self
+    refine ⟨fun τ h _ => haw τ h, ?_, fun _ => Or.inl hin⟩
+    rcases hd with ⟨_, rfl⟩ | ⟨_, rfl⟩ <;> exact fun e h => h
+  | readyDeliver wf hact hnew hlen hamp hr p3 hd hfoo =>
+    have h3a : p3.awaited = q.awaited := by rcases hd with ⟨_, rfl⟩ | ⟨_, rfl⟩ <;> rfl
+    have h3b : p3.deliverBuf = q.deliverBuf := by rcases hd with ⟨_, rfl⟩ | ⟨_, rfl⟩ <;> rfl
+    have h3m : p3.mbar = q.mbar := by rcases hd with ⟨_, rfl⟩ | ⟨_, rfl⟩ <;> rfl
+    have h3d : aGet p3.dbar msg.tag = some msg.payload := by
+      rcases hd with ⟨_, rfl⟩ | ⟨h, rfl⟩
+      · exact aGet_aSet_self _ _ _
+      · exact h
+    refine ⟨fun τ h _ => by rw [(dob_same p3 msg []).awaited, h3a]; exact h,
+      fun e h => dob_buf_mono p3 msg e (by rw [h3b]; exact h), fun _ => ?_⟩
+    rcases dob_prog p3 msg with ⟨hn, _⟩ | h | h
+    · right; right; right
+      rw [(dob_same p3 msg []).dbar, h3d]
+      rw [h3m] at hn
+      rcases hfoo with ⟨_, h0⟩ | ⟨mb, hmb, _⟩
+      · rw [h0]
+      · rw [hmb] at hn; cases hn
+    · exact Or.inr (Or.inl h)
+    · exact Or.inr (Or.inr (Or.inl h))
+  | answerDeliver wf hact hnew db hd haw hh =>
+    refine ⟨fun τ h hne => ?_, fun e h => dob_buf_mono _ msg e h, fun _ => ?_⟩
+    · rw [(dob_same _ msg []).awaited]
+      exact (List.mem_erase_of_ne hne).2 h
+    · rcases dob_prog (answerPost q l msg) msg with ⟨hn, _⟩ | h | h
+      · have : aGet (answerPost q l msg).mbar msg.tag = some msg.payload := aGet_aSet_self _ _ _
+        rw [this] at hn; cases hn
+      · exact Or.inr (Or.inl h)
+      · exact Or.inr (Or.inr (Or.inl h))
+  | ldelDeliver wf hact hnew hretr i hi =>
+    refine ⟨fun τ h _ => by rw [(dob_same _ msg []).awaited]; exact h,
+      fun e h => dob_buf_mono _ msg e h, ?_⟩
+    rintro (h | ⟨h, h'⟩)
+    · left; rw [(dob_same _ msg []).awaited]; exact h
+    · rw [(dob_same _ msg []).dbar] at h'; exact absurd h h'
+  | _ => exact triv rfl rfl rfl
+
 end Tmcg.Rbc
